@@ -22,7 +22,7 @@ ASSUMPTIONS = ["residue-graph edges are taken from the generated input graph, no
 CASE_TIMEOUT = 120
 WALL = {"quick": 900, "thorough": 7200}
 REQUIRED = {"residue_edges_checked": 2000, "edges_realised": 300, "edges_missing": 300, "warnings_seen": 300,
-            "gen_coords_refusals": 20, "gen_coords_accepts": 5, "atom_removal_cases": 3}
+            "gen_coords_refusals": 20, "gen_coords_accepts": 3, "atom_removal_cases": 3}
 MSG = re.compile(r"Missing a link between residue (\d+) (\S+) and residue (\d+) (\S+)\.")
 ADDS = {"n": 0}
 
@@ -153,7 +153,7 @@ def run_case(cid, rng, workdir):
                 stack.append(v)
     connected = len(seen) == len(adj)
     cond_bonds = any(c for sec in ("bonds", "constraints") for (_a, _p, c) in obs["inter"].get(sec, {}))
-    if (not connected and not cond_bonds) or (connected and not cond_bonds and rng.random() < 0.05):
+    if (not connected and not cond_bonds) or (connected and not cond_bonds and rng.random() < 0.15):
         with open(os.path.join(workdir, "sys.top"), "w") as fh:
             fh.write(top_for("out.itp", "POLY", others=rng.choice([None, "before", "after", "both"])))
         from polyply import gen_coords
